@@ -12,10 +12,10 @@ RULE = ("one case = one generated grammar (unbiased / mostly non-left-recursive 
         "budget (sys.settrace); non-trivial = at least one tree and one ParsingError, or the reference test says "
         "left-recursive; distinct by protocol text")
 TRUSTED = ["re (lexemes are found by the harness with the tokenizer's own pattern)",
-           "sys.settrace line counter as the observable for non-termination (budget 400000 line events per call)"]
+           "sys.settrace line counter as the observable for non-termination (budget 2000000 line events per call, inputs of at most 5 tokens: the largest count seen on the unchanged tree is ~11000)"]
 ASSUMPTIONS = ["the equivalence 'cycle in the factorised dictionary <=> the user's grammar is left-recursive' is not a theorem; "
                "it is covered by the oracle (reference test on the user's productions) on every generated grammar"]
-BUDGET = 400000
+BUDGET = 2000000
 
 
 def impl(case):
@@ -40,6 +40,8 @@ def oracle(case, replies):
         elif op == "p" and ok:
             if rep == "err BudgetExceeded":
                 return "parse-does-not-terminate: budget of %d line events exceeded on input %r" % (BUDGET, ll.dec_p(line))
+            if rep == "skipped-after-BudgetExceeded":
+                continue
             if not (rep.startswith("tree ") or rep == "err ParsingError"):
                 return "parse-raises: %s on input %r" % (rep[:60], ll.dec_p(line))
     return None
@@ -47,9 +49,9 @@ def oracle(case, replies):
 
 def gen_cases(rng, tier):
     if tier == "quick":
-        yield from ll.gen_ll_cases(rng, 1500, 3, sentences=12, hidden_share=0.3, diags=())
+        yield from ll.gen_ll_cases(rng, 1500, 3, sentences=12, hidden_share=0.3, diags=(), sent_maxlen=5)
     else:
-        yield from ll.gen_ll_cases(rng, 30000, 4, sentences=20, extra_long=10, hidden_share=0.3, diags=())
+        yield from ll.gen_ll_cases(rng, 30000, 4, sentences=20, hidden_share=0.3, diags=(), sent_maxlen=5)
         yield from ll.tiny_grammars(rng, limit=20000, inputs_len=4)
 
 
@@ -58,7 +60,7 @@ def corpus():
 
 
 def search_cases(rng, tier):
-    yield from ll.gen_ll_cases(rng, 4000 if tier == "quick" else 40000, 2, sentences=5, hidden_share=0.8, diags=())
+    yield from ll.gen_ll_cases(rng, 4000 if tier == "quick" else 40000, 2, sentences=5, hidden_share=0.8, diags=(), sent_maxlen=4)
 
 
 def nontrivial(case, replies):
